@@ -125,6 +125,15 @@ Theorem C13_decode_to_sink_fixed : forall k s snk0 n payload r res s' k',
 Proof. exact decode_to_sink_fixed. Qed.
 Print Assumptions C13_decode_to_sink_fixed.
 
+(* varint prefix from ANY source (any fragmentation, zero-length answers are outside: see Model/Varint.v; EINTR/EAGAIN/hard errors
+   end the call with that error): a reported success delivered exactly the payload and left the stream right behind the frame *)
+Theorem C13_decode_var_any : forall s size n payload r c d s',
+  n < 2 ^ 64 -> N.of_nat (length payload) = n -> s_stream s = vi_encode n ++ payload ++ r ->
+  lenp_memory_from_source LVar s size = Some (DOk c, d, s') ->
+  c = n /\ d = payload /\ s_stream s' = r /\ n <= size.
+Proof. exact memory_from_source_var_any. Qed.
+Print Assumptions C13_decode_var_any.
+
 (* every entry point returns, whatever the drivers do (the model's fuel never runs out) *)
 Theorem C13_encoders_return : forall k snk0,
   (forall xs n, lenp_memory_to_sink k snk0 xs n <> None) /\
